@@ -141,6 +141,32 @@ def place(pos, val):
     raise ValueError(pos)
 
 
+NUMBER_STATES = [
+    ['setint A %s -1' % enc(b'i')], ['setint A %s 0' % enc(b'i')], ['setint A %s 9223372036854775807' % enc(b'i')], ['setint A %s -9223372036854775808' % enc(b'i')],
+    ['setfloat A %s -2.5' % enc(b'f')], ['setfloat A %s 1e20' % enc(b'f')], ['setfloat A %s 1e-7' % enc(b'f')], ['setfloat A %s 0' % enc(b'f')],
+    ['setfloat A %s 123456.789' % enc(b'f')], ['setbool A %s 0' % enc(b'b')], ['setbool A %s 1' % enc(b'b')],
+    ['parse_buf A ' + enc(b'mt a { l = {-1, 0, 0x7fffffffffffffff, 010} } mt b { l = {} v = "" }')],
+    ['parse_buf A ' + enc(b'sl = {} i = -0 f = -0.0')], ['parse_buf A ' + enc(b'sl = {"", "", ""} mt "" { }')],
+    ['setlist A %s str 0' % enc(b'sl'), 'addtsec A %s %s' % (enc(b'mt'), enc(b'only'))],
+]
+
+
+def shard_numbers(sh):
+    deadline = sh
+    drv = get_driver('asan')
+    drv.define_schema('S5', FAM['S5'].spec())
+    st = ShardStats('number / empty states')
+    cases = []
+    for a in NUMBER_STATES:
+        for b in [[]] + NUMBER_STATES:
+            for fl in (0, CM):
+                cases.append((Case(['init A S5 %d' % fl] + a + b + rt_lines('S5', fl)), fl))
+    for (c, fl), r in zip(cases, drv.run([c for c, _ in cases])):
+        judge(st, 'S5', c, r, fl, 'numbers')
+    st.samples.append({'states': 'pairs of %d number / empty-value operations' % len(NUMBER_STATES)})
+    return st.result([drv])
+
+
 def shard_strings(sh):
     positions, values, deadline = sh
     drv = get_driver('asan')
@@ -182,6 +208,7 @@ def main():
     strs += [b'${HOME}', b'a${HOME}b', b'${X:-d}', b'$' + b'{', b'\\"', b'"\\', b'/*', b'*/', b'x*/y', b'a\n*/\nb', b'//', b'# c', b'', b' lead', b'trail ', b'\\n', b"it's", b'ti"tle']
     engine.phase(ck, 'all strings of length 2..%d over %d meta characters at 5 positions' % (L, len(META)), shard_strings,
                  [(positions, list(ch), dl) for ch in engine.chunks(strs, 12)], values=len(strs))
+    engine.phase(ck, 'boundary numbers, negative zero, empty lists / strings / titles', shard_numbers, [dl])
     N = 6 if quick else 7
     shards = []
     for sid in PRINTABLE:
